@@ -139,7 +139,6 @@ func sensorStartupRun(ctx *Ctx, ins []sensorIn) ([]sensorObs, []string) {
 	}
 	savedCurves, savedFans := configuration.CurrentConfig.Curves, configuration.CurrentConfig.Fans
 	defer func() { configuration.CurrentConfig.Curves, configuration.CurrentConfig.Fans = savedCurves, savedFans }()
-	started := make([]sensors.Sensor, len(ins))
 	p := catch(func() {
 		// the outside world as the daemon finds it at start-up
 		for i, in := range ins {
@@ -149,33 +148,63 @@ func sensorStartupRun(ctx *Ctx, ins []sensorIn) ([]sensorObs, []string) {
 		configuration.CurrentConfig.Sensors = cfgs
 		configuration.CurrentConfig.Curves = nil
 		configuration.CurrentConfig.Fans = nil
-		if _, err := internal.InitializeObjects(); err != nil {
-			panic(err)
-		}
-		for i := range ins {
-			s, ok := sensors.GetSensor(ids[i])
-			if !ok {
-				panic("sensor not registered: " + ids[i])
-			}
-			started[i] = s
-			obs[i].Init = sensorFmtF(s.GetMovingAvg())
-		}
 	})
+	if p == "" {
+		// every call into the real code runs under the watchdog (drv_sensor_guard.go)
+		if r := sensorGuard(sensorWatchdog("cmd"), func() {
+			if _, err := internal.InitializeObjects(); err != nil {
+				panic(err)
+			}
+		}); r != "" {
+			p = "InitializeObjects: " + r
+		}
+	}
 	for i, in := range ins {
 		obs[i].Panic = p
-		if p != "" || started[i] == nil {
+		if p != "" {
 			continue
 		}
+		wd := sensorWatchdog(in.Kind)
+		i := i
+		call := func(where string, f func()) bool {
+			if r := sensorGuard(wd, f); r != "" {
+				obs[i].Panic = where + ": " + r
+				return false
+			}
+			return true
+		}
 		configuration.CurrentConfig.TempRollingWindowSize = in.N
-		obs[i].Panic = catch(func() {
-			for _, st := range in.Steps {
+		harness := catch(func() {
+			var s sensors.Sensor
+			var avg float64
+			if !call("GetSensor+GetMovingAvg after start-up", func() {
+				var ok bool
+				s, ok = sensors.GetSensor(ids[i])
+				if !ok {
+					panic("sensor not registered: " + ids[i])
+				}
+				avg = s.GetMovingAvg()
+			}) {
+				return
+			}
+			obs[i].Init = sensorFmtF(avg)
+			for k, st := range in.Steps {
 				worlds[i].apply(st)
-				err := internal.VerifUpdateSensor(started[i])
-				obs[i].Avgs = append(obs[i].Avgs, sensorFmtF(started[i].GetMovingAvg()))
+				var err error
+				if !call("updateSensor poll "+itoa(k), func() { err = internal.VerifUpdateSensor(s) }) {
+					return
+				}
+				if !call("GetMovingAvg after poll "+itoa(k), func() { avg = s.GetMovingAvg() }) {
+					return
+				}
+				obs[i].Avgs = append(obs[i].Avgs, sensorFmtF(avg))
 				obs[i].Errs = append(obs[i].Errs, err != nil)
 			}
-			worlds[i].eio = false
 		})
+		worlds[i].eio = false
+		if harness != "" {
+			obs[i].Panic = harness
+		}
 	}
 	coqs := make([]string, len(ins))
 	for i, in := range ins {
